@@ -96,7 +96,11 @@ impl TxoProof {
     pub fn filter_header(&self) -> (r: FilterHeader) ensures r == proof_filter_header(*self) { unimplemented!() }
 }
 impl FilterHeader {
-    pub uninterp spec fn is_all_zero(&self) -> bool;
+    pub uninterp spec fn bytes(&self) -> Seq<u8>;
+    // "no filter header recorded" (upgrade path): all 32 bytes are zero
+    pub open spec fn is_all_zero(&self) -> bool { forall|i: int| 0 <= i < 32 ==> #[trigger] self.bytes()[i] == 0 }
+    #[verifier::external_body]
+    pub fn to_byte_array(&self) -> (r: [u8; 32]) ensures r@ == self.bytes(), self.bytes().len() == 32 { unimplemented!() }
     #[verifier::external_body]
     pub fn vx_all_zero(&self) -> (r: bool) ensures r == self.is_all_zero() { unimplemented!() }
 }
